@@ -302,8 +302,10 @@ func (node *Node) ProcessBlock(ctx context.Context, block wire.Block) error {
 					// Only send for txs that previously matched filters.
 
 					// Mark cancelled
+					node.txStateLock.Lock()
 					txState, err := handlersstorage.FetchTxState(ctx, node.store, confHash)
 					if err != nil {
+						node.txStateLock.Unlock()
 						node.txs.ReleaseUnconfirmed(ctx)
 						return errors.Wrap(err, "fetch tx state")
 					}
@@ -313,6 +315,7 @@ func (node *Node) ProcessBlock(ctx context.Context, block wire.Block) error {
 					txState.State.Cancelled = true
 
 					if err := handlersstorage.SaveTxState(ctx, node.store, txState); err != nil {
+						node.txStateLock.Unlock()
 						node.txs.ReleaseUnconfirmed(ctx)
 						return errors.Wrap(err, "save tx state")
 					}
@@ -325,6 +328,7 @@ func (node *Node) ProcessBlock(ctx context.Context, block wire.Block) error {
 					for _, handler := range node.handlers {
 						handler.HandleTxUpdate(ctx, update)
 					}
+					node.txStateLock.Unlock()
 				}
 			}
 		}
@@ -402,8 +406,10 @@ func (node *Node) ProcessBlock(ctx context.Context, block wire.Block) error {
 			}
 
 		} else {
+			node.txStateLock.Lock()
 			txState, err := handlersstorage.FetchTxState(ctx, node.store, *tx.TxHash())
 			if err != nil {
+				node.txStateLock.Unlock()
 				node.txs.ReleaseUnconfirmed(ctx)
 				return errors.Wrap(err, "fetch tx state")
 			}
@@ -419,6 +425,7 @@ func (node *Node) ProcessBlock(ctx context.Context, block wire.Block) error {
 			}
 
 			if err := handlersstorage.SaveTxState(ctx, node.store, txState); err != nil {
+				node.txStateLock.Unlock()
 				node.txs.ReleaseUnconfirmed(ctx)
 				return errors.Wrap(err, "save tx state")
 			}
@@ -431,6 +438,7 @@ func (node *Node) ProcessBlock(ctx context.Context, block wire.Block) error {
 			for _, handler := range node.handlers {
 				handler.HandleTxUpdate(ctx, update)
 			}
+			node.txStateLock.Unlock()
 
 		}
 	}
